@@ -1288,35 +1288,59 @@ impl LineBuf {
 				TextObj::Custom(_) => todo!(),
 		}
 	}
-	pub fn text_obj_word(&mut self, count: usize, bound: Bound, word: Word) -> Option<(usize,usize)> {
-		match bound {
-			Bound::Inside => {
-				let start = if self.is_word_bound(self.cursor.get(), word, Direction::Backward) {
-					self.cursor.get()
-				} else {
-					self.start_of_word_backward(self.cursor.get(), word)
-				};
-				let end = if self.is_word_bound(self.cursor.get(), word, Direction::Forward) {
-					self.cursor.get()
-				} else {
-					self.end_of_word_forward(self.cursor.get(), word)
-				};
-				Some((start,end))
-			}
-			Bound::Around => {
-				let start = if self.is_word_bound(self.cursor.get(), word, Direction::Backward) {
-					self.cursor.get()
-				} else {
-					self.start_of_word_backward(self.cursor.get(), word)
-				};
-				let end = if self.is_word_bound(self.cursor.get(), word, Direction::Forward) {
-					self.cursor.get()
-				} else {
-					self.end_of_word_forward(self.cursor.get(), word)
-				};
-				Some((start,end))
+	/// The kind of word character at `idx`: blank, or one of the kinds that make up words.
+	/// `None` at a line terminator and past the end: words do not run across lines.
+	fn word_char_kind(&mut self, idx: usize, word: Word) -> Option<CharClass> {
+		let gr = self.grapheme_at(idx)?;
+		if gr == "\n" {
+			return None
+		}
+		let class = CharClass::from(gr);
+		match word {
+			Word::Big if class != CharClass::Whitespace => Some(CharClass::Other),
+			_ => Some(class)
+		}
+	}
+	/// The run of characters of one kind around `pos` (both ends included)
+	fn word_run(&mut self, pos: usize, word: Word) -> Option<(usize,usize)> {
+		let kind = self.word_char_kind(pos, word)?;
+		let mut start = pos;
+		while start > 0 && self.word_char_kind(start - 1, word) == Some(kind) {
+			start -= 1;
+		}
+		let mut end = pos;
+		while self.word_char_kind(end + 1, word) == Some(kind) {
+			end += 1;
+		}
+		Some((start,end))
+	}
+	/// 'iw' is the word (or the run of blanks) under the cursor. 'aw' is the word with the blanks after it,
+	/// or with the blanks before it when none follow; on blanks, the blanks with the word after them.
+	/// Both ends are included.
+	pub fn text_obj_word(&mut self, _count: usize, bound: Bound, word: Word) -> Option<(usize,usize)> {
+		let cursor = self.cursor.get();
+		let (mut start,mut end) = self.word_run(cursor, word)?;
+		if bound == Bound::Around {
+			let on_blanks = self.word_char_kind(cursor, word) == Some(CharClass::Whitespace);
+			let blanks_follow = self.word_char_kind(end + 1, word) == Some(CharClass::Whitespace);
+			if on_blanks {
+				// there has to be a word after the blanks
+				let (_,run_end) = self.word_run(end + 1, word)?;
+				end = run_end;
+			} else if blanks_follow {
+				if let Some((_,run_end)) = self.word_run(end + 1, word) {
+					end = run_end;
+				}
+			} else if start > 0 && self.word_char_kind(start - 1, word) == Some(CharClass::Whitespace) {
+				if let Some((run_start,_)) = self.word_run(start - 1, word) {
+					// but not the indent of the line
+					if run_start > 0 && self.grapheme_at(run_start - 1) != Some("\n") {
+						start = run_start;
+					}
+				}
 			}
 		}
+		Some((start,end))
 	}
 	/// Get the span of the current `sentence`
 	///
@@ -2158,15 +2182,9 @@ impl LineBuf {
 				let Some(next_ws_pos) = indices_iter.find(|i| self.grapheme_at(*i).is_some_and(|c| is_other_class_or_is_ws(c, &cur_char))) else {
 					return default
 				};
-				pos = next_ws_pos;
-
-				if pos == 0 {
-					// We reached the start of the buffer
-					pos
-				} else {
-					// We hit some other character class, so we go back one
-					pos + 1
-				}
+				// We hit some other character class (it may be the first character of the buffer),
+				// the word starts right after it
+				next_ws_pos + 1
 			}
 		}
 	}
@@ -2624,7 +2642,8 @@ impl LineBuf {
 							}
 						}
 					}
-					TextObj::Word(_, bound) |
+					// both ends of a word object are part of it
+					TextObj::Word(_, _) => MotionKind::Inclusive((start,end)),
 					TextObj::WholeSentence(bound) |
 					TextObj::WholeParagraph(bound) => {
 						match bound {
@@ -3124,18 +3143,12 @@ impl LineBuf {
 				if self.select_range().is_none() {
 					self.cursor.set(start);
 				} else {
-					if start < self.cursor.get() {
-						self.cursor.set(start);
-						if let Some(mode) = self.select_mode.as_mut() {
-							mode.set_anchor(SelectAnchor::End);
-						}
-						end = (end + 1).min(self.cursor.max);
-					} else {
-						self.cursor.set(end);
-						end = self.cursor.get(); // The selection ends where the cursor could go
-						if let Some(mode) = self.select_mode.as_mut() {
-							mode.set_anchor(SelectAnchor::Start);
-						}
+					// The object becomes the selection, with the cursor on its last character
+					// (also when the object starts before the cursor, as with 'viw' inside a word)
+					self.cursor.set(end);
+					end = self.cursor.get(); // The selection ends where the cursor could go
+					if let Some(mode) = self.select_mode.as_mut() {
+						mode.set_anchor(SelectAnchor::Start);
 					}
 					self.select_range = Some(SelectRange::OneDim((start,end)));
 				}
